@@ -8,6 +8,27 @@ import BiscuitModel.Driver.Verbs
 
 open Biscuit Biscuit.Driver
 
+/-- `--need`: echo every line, adding the oracle queries the model will ask. -/
+partial def needLoop (h : IO.FS.Stream) (out : IO.FS.Stream) : IO Unit := do
+  let line ← h.getLine
+  if line.isEmpty then return ()
+  let line : String := String.ofList ((line.toList.reverse.dropWhile (fun c => c == '\n' || c == '\r')).reverse)
+  if line.isEmpty then needLoop h out else
+  match line.splitOn " " with
+  | verb :: _id :: rest =>
+    let body := " ".intercalate rest
+    match (Sexp.parse body).bind (needOf verb) with
+    | some q =>
+      -- insert the queries as a last field of the (case …) list
+      let trimmed := (body.toList.reverse.dropWhile (· == ' ')).reverse
+      let inner := String.ofList (trimmed.take (trimmed.length - 1))
+      out.putStrLn (verb ++ " " ++ _id ++ " " ++ inner ++ " " ++ q ++ ")")
+    | none => out.putStrLn line
+    needLoop h out
+  | _ =>
+    out.putStrLn line
+    needLoop h out
+
 partial def loop (h : IO.FS.Stream) (out : IO.FS.Stream) : IO Unit := do
   let line ← h.getLine
   if line.isEmpty then return ()
@@ -25,8 +46,8 @@ partial def loop (h : IO.FS.Stream) (out : IO.FS.Stream) : IO Unit := do
     out.putStrLn "? bad-line"
     loop h out
 
-def main : IO Unit := do
+def main (args : List String) : IO Unit := do
   let stdin ← IO.getStdin
   let stdout ← IO.getStdout
-  loop stdin stdout
+  if args.contains "--need" then needLoop stdin stdout else loop stdin stdout
   stdout.flush
